@@ -26,6 +26,9 @@ theorem only_startStage_claims (c : Cfg) (s : State) (row : Row) (i : Nat) (e : 
   | startStage j r =>
     simp only [hm, hStartStage] at he
     split at he
+    · simp at he
+    simp only [hStartStageCore] at he
+    split at he
     · rename_i hready
       -- READY branch: startIfReady
       simp only [startIfReady] at he
@@ -45,15 +48,16 @@ theorem only_startStage_claims (c : Cfg) (s : State) (row : Row) (i : Nat) (e : 
     simp_all
   | runTask j t =>
     simp only [hm, hRunTask] at he
-    (repeat' split at he) <;> simp at he
-    all_goals (try (obtain ⟨rfl, rfl⟩ := he; simp_all))
-    rename_i oc _
-    unfold processResult at he
-    cases oc <;> simp at he
-    all_goals (try (obtain ⟨rfl, rfl⟩ := he; simp_all))
-    all_goals (try ((repeat' split at he) <;> simp at he))
-    all_goals (try (obtain ⟨rfl, rfl⟩ := he))
-    all_goals simp_all
+    split at he
+    · rename_i txns hg
+      unfold runTaskGuard at hg
+      simp only [] at hg
+      (repeat' split at hg) <;> simp at hg <;> subst hg <;> simp at he
+    · unfold runTaskCommit processResult at he
+      simp only [] at he
+      (repeat' split at he) <;> simp at he
+      all_goals (try (obtain ⟨rfl, rfl⟩ := he))
+      all_goals simp_all
   | completeTask j t st =>
     simp only [hm, hCompleteTask] at he
     (repeat' split at he) <;> simp at he
@@ -109,7 +113,7 @@ theorem only_jump_sets_bypass (c : Cfg) (s : State) (row : Row) (j : Nat) (e : E
     simp only [hm, hStartWorkflow] at he
     (repeat' split at he) <;> simp at he
   | startStage i r =>
-    simp only [hm, hStartStage, startIfReady] at he
+    simp only [hm, hStartStage, hStartStageCore, startIfReady] at he
     (repeat' split at he) <;> simp at he
     all_goals (try (rcases he with he | he))
     all_goals (try (obtain ⟨rfl, rfl⟩ := he))
@@ -122,15 +126,16 @@ theorem only_jump_sets_bypass (c : Cfg) (s : State) (row : Row) (j : Nat) (e : E
     simp_all
   | runTask i t =>
     simp only [hm, hRunTask] at he
-    (repeat' split at he) <;> simp at he
-    all_goals (try (obtain ⟨rfl, rfl⟩ := he; simp_all))
-    rename_i oc _
-    unfold processResult at he
-    cases oc <;> simp at he
-    all_goals (try (obtain ⟨rfl, rfl⟩ := he; simp_all))
-    all_goals (try ((repeat' split at he) <;> simp at he))
-    all_goals (try (obtain ⟨rfl, rfl⟩ := he))
-    all_goals simp_all
+    split at he
+    · rename_i txns hg
+      unfold runTaskGuard at hg
+      simp only [] at hg
+      (repeat' split at hg) <;> simp at hg <;> subst hg <;> simp at he
+    · unfold runTaskCommit processResult at he
+      simp only [] at he
+      (repeat' split at he) <;> simp at he
+      all_goals (try (obtain ⟨rfl, rfl⟩ := he))
+      all_goals simp_all
   | completeTask i t st =>
     simp only [hm, hCompleteTask] at he
     (repeat' split at he) <;> simp at he
